@@ -569,6 +569,15 @@ def zc_episode(g, kind, steps):
         for _ in range(r.choice([1, 1, 2])):
             v = g.fresh("v")
             entry = kind if kind == "frozen" else r.choice([kind, kind, "frombuffer", "fromunsafe"])
+            if r.random() < 0.4:
+                # the receiver was used before: an ordinary bitmap with at least as many chunks (its own, unshared containers),
+                # possibly edited or cleared, is loaded again from the caller's buffer
+                ep.mk(v, sorted(set(ks) | {k + 1 for k in ks if k < 65535} | {0}), r.randrange(2))
+                if r.random() < 0.5:
+                    ep.mutate(v)
+                if r.random() < 0.3:
+                    g.emit("clear %s" % v)
+                g.count("zc:reused-receiver")
             g.emit("zrd %s %s %s" % (v, entry, m))
             ep.define(v, ks, [m])
             ep.views.add(v)
